@@ -36,6 +36,22 @@ def run(tier):
     V.model(res2, "Result.tla scope=grid (EmpiricalMapping, NoneTable)")
     R.replay_grid(V, PID, gcases, NAMES, "grid")
     R.run_traces(V, PID, tier, common.seed(), lambda rnd: [], n_quick=8)
+    # scatter at scale on every backend, including coherent lines far above the noise floor (large mean, tiny scatter)
+    import random
+    from .. import traces
+    from . import C01
+    specs = [dict(sp, data=("line" if k % 2 == 0 else sp["data"]), K=max(sp["K"], 3)) for k, sp in enumerate(C01.scale_specs(tier, common.seed() + 9)[: (60 if tier == "quick" else 600)])]
+    trs = [t for t in common.pmap(C01.record_scale_trace, specs, chunksize=4) if t["ev"] and t["c"]["budget"] <= 64]
+    vd, tres = traces.validate("KernelTrace", f"{PID}_ktrace", trs)
+    V.model(tres, "KernelTrace.tla (scatter clauses at scale)")
+    V.add("traces_validated_against_impl", len(trs))
+    for t, v in zip(trs, vd):
+        V.case(t["meta"], True)
+        for (l, clause) in v:
+            if "scatter" in clause or clause == "agrees_with_first_event":
+                V.violation(f"{PID}|ktrace|{t['ev'][l-1]['b']}|{clause}|{t['meta']['data']}",
+                            {"kind": "scale_trace", "trace": t, "event": l, "clause": clause,
+                             "message": f"KernelTrace rejected event {l} ({t['ev'][l-1]['b']}) clause {clause}: {t['ev'][l-1]} vs first {t['ev'][0]}"})
     V.sample({"kernel_case": {k: cases[len(cases) // 2][k] for k in ("x", "y", "L", "D", "win", "c2", "order", "mode", "exp")}})
     V.assumptions += ["agreement of the empirical with the analytic deviations for Gaussian noise is distributional and not decided here (DESIGN.md §0)",
                       "exact scatter only for cases whose quartic form fits 32-bit integers (m2ok); the reducers are order-independent"]
